@@ -32,6 +32,16 @@ def validate(doc):
             elif m.group(1) not in comps:
                 out.append(("dangling-ref", "%s at %s" % (r, "/".join(map(str, path)))))
     walk(doc, ref_check)
+    # a component must hold a schema: following components that are nothing but a $ref must end at one
+    for name in comps:
+        seen = []
+        cur = name
+        while isinstance(comps.get(cur), dict) and set(comps[cur].keys()) == {"$ref"} and cur not in seen:
+            seen.append(cur)
+            m = re.match(r"^#/components/schemas/(.+)$", comps[cur]["$ref"])
+            cur = m.group(1) if m else None
+        if cur in seen:
+            out.append(("component-is-only-a-reference-cycle", "component %s refers only to itself (%s)" % (name[:24], " -> ".join(x[:12] for x in seen))))
     opids = {}
     for pkey, item in (doc.get("paths") or {}).items():
         if not isinstance(item, dict):
